@@ -29,10 +29,14 @@ def write_bgzf(path, data, sizes=None, rng=None, layout="standard"):
     out = bytearray()
     if sizes is None:
         sizes = []
-        if layout == "standard":
+        if layout in ("standard", "max64k"):
+            # bgzip / htslib fill blocks with 65280 bytes; the format allows 65536 (htsjdk writers use it)
+            blk = 65280
+            if layout == "max64k" or (rng is not None and len(data) > 65536 and rng.random() < 0.5):
+                blk = 65536
             n = len(data)
             while n > 0:
-                sizes.append(min(65280, n))
+                sizes.append(min(blk, n))
                 n -= sizes[-1]
         elif layout == "tiny":
             n = len(data)
